@@ -272,6 +272,11 @@ class RungeKuttaIntegrator(TableauIntegrator, abc.ABC):
         return __jac
 
     def step(self, rhs, initial_time, initial_state, constants, timestep):
+        if not bool(D.ar_numpy.all(D.ar_numpy.isfinite(self.stage_values))):
+            # non-finite stage slopes left behind by a failed attempt (overflow, a trial point outside the domain of the
+            # right-hand side) must not enter this attempt: as 0*inf in the explicit sweep (a stage without coefficients
+            # sums ALL stored slopes with zero weights) or as the starting guess of the stage solve
+            self.stage_values = D.ar_numpy.zeros_like(self.stage_values)
         # Initial guess from assuming method is explicit #
         _, intermediate_dstate, intermediate_rhs = components.rk_methods.compute_step(
             rhs,
